@@ -335,7 +335,12 @@ func (c *TCPConn) Write(b []byte) (int, error) {
 }
 
 // Feed queues one segment for the proxy to read.
-func (c *TCPConn) Feed(segment []byte) { c.inbox <- segment }
+func (c *TCPConn) Feed(segment []byte) {
+	if c.closed {
+		return // the proxy has closed the connection: the peer's bytes go nowhere
+	}
+	c.inbox <- segment
+}
 
 // EOF closes the read side (peer closed the connection).
 func (c *TCPConn) EOF() {
